@@ -465,4 +465,25 @@ example : (deliverTx exCfg { exTx with granter := some "G" } exStG).outcome.isOk
 
 end Examples
 
+/-! ### Observation outside the property's quantifier
+
+The fee floor is enforced only by the mempool check (`MsgFeesDecorator` runs in CheckTx only;
+PrepareProposal/ProcessProposal contexts are not CheckTx contexts).  A transaction that the
+mempool check REJECTS but that a proposer includes in a block anyway is still charged
+`floor × gas` by `checkDeductBaseFee`, which never looks at the declared fee — i.e. MORE than
+it declared — and then fails in the sweep.  Reproduced on the real app by the last two lines of
+corpus/C08/txfee.basic.ops (declared `1nhash` resp. nothing, charged `200000nhash` resp.
+`7620000000nhash`).  The property quantifies over admitted transactions only, so this is not a
+violation of C08; it is recorded because "never more than declared" stops at the mempool. -/
+theorem unadmitted_tx_is_charged_more_than_declared :
+    ∃ (cfg : Cfg) (tx : Tx) (s : St),
+      (match (checkTx cfg tx s).2 with | some .fee => true | _ => false) = true ∧
+      (deliverTx cfg tx s).outcome.isFailed = true ∧
+      Coins.amountOf tx.fee "nhash" = 1 ∧
+      (deliverTx cfg tx s).final.ledger.bal "P" "nhash" = s.ledger.bal "P" "nhash" - 200000 :=
+  ⟨{ floor := ("nhash", 1), convDenom := "nhash", nhashPerUsdMil := 25, sched := [] },
+   { fee := [("nhash", 1)], gas := 200000, payer := "P", granter := none, top := [{ typ := "send" }],
+     steps := [.route { typ := "send" }] },
+   { ledger := Ledger.entries "P" [("nhash", 1000000)], allow := .none }, by decide⟩
+
 end PvProofs.C08
